@@ -2,24 +2,25 @@
 (***************************************************************************)
 (* The contract of the crate's iterators as seen through a recorded call   *)
 (* sequence.  res is the sequence of call records the harness logs:        *)
-(*   [c |-> 0, st |-> "done", y |-> <<>> | <<element>>]      next          *)
-(*   [c |-> 1, st |-> "done" | "na", y |-> ...]              next_back     *)
-(*   [c |-> 2, st |-> "done" | "na", len |-> n]              len           *)
-(*   [c |-> 3, st |-> "done", lo |-> n, hi |-> <<>> | <<n>>] size_hint     *)
+(*   [c |-> 0, st, k, y |-> <<>> | <<element>>]            next            *)
+(*   [c |-> 1, st |-> "done" | "na", k, y]                 next_back       *)
+(*   [c |-> 2, st |-> "done" | "na", k, len |-> n]         len             *)
+(*   [c |-> 3, st, k, lo |-> n, hi |-> <<>> | <<n>>]       size_hint       *)
+(*   [c |-> 4, st, k, y]                                   nth(k)          *)
+(*   [c |-> 5, st |-> "done" | "na", k, y]                 nth_back(k)     *)
+(*   [c |-> 6, st, k, y]                                   last()   (consumes everything) *)
+(*   [c |-> 7, st, k, len |-> n]                           count()  (consumes everything) *)
 (*   st = "started": the call did not return (it panicked)                 *)
-(* S is the set of elements the underlying queue held, n0 = |S|.           *)
-(* The harness always ends a sequence with enough `next` calls to exhaust  *)
-(* the iterator, so "the number of elements still to be yielded" after a   *)
-(* call is simply the number of elements yielded by the later calls.       *)
+(* S is the set of elements the underlying queue held.  The number of      *)
+(* elements still to be yielded is accounted forward: it starts at the     *)
+(* total the (adapted) iterator owes - ExpectedTotal - and every call      *)
+(* consumes what the std contract says it consumes.                        *)
 (***************************************************************************)
 EXTENDS Abstract
 
-IsYieldCall(x) == x.c \in {0, 1} /\ x.st = "done"
-Yielded(x) == IsYieldCall(x) /\ x.y # <<>>
+Yielding(x) == x.c \in {0, 1, 4, 5, 6} /\ x.st = "done"
+Yielded(x)  == Yielding(x) /\ x.y # <<>>
 YieldIdx(res) == {i \in 1..Len(res) : Yielded(res[i])}
-Remaining(res, i) == Cardinality({j \in YieldIdx(res) : j > i})
-Exhausted(res) == \E i \in 1..Len(res) : IsYieldCall(res[i]) /\ res[i].y = <<>>
-                                         /\ \A j \in (i+1)..Len(res) : ~Yielded(res[j])
 DeclaresExact(res) == \E i \in 1..Len(res) : res[i].c = 2 /\ res[i].st = "done"
 
 \* number of elements the adaptor composition must yield in total from n elements
@@ -30,12 +31,23 @@ ExpectedTotal(adapt, k, n) ==
     [] adapt = "step_by" -> LET s == IF k < 1 THEN 1 ELSE k IN (n + s - 1) \div s
     [] OTHER -> n
 
-Id(y) == IF y.ai # 0 THEN <<"addr", y.ai>> ELSE <<"key", y.k>>
+\* elements a completed call takes out of the iterator when `rem` were left
+Consumes(x, rem) ==
+  IF x.st # "done" THEN 0
+  ELSE CASE x.c \in {0, 1} -> IF rem > 0 THEN 1 ELSE 0
+         [] x.c \in {4, 5} -> Min2(x.k + 1, rem)
+         [] x.c \in {6, 7} -> rem
+         [] OTHER          -> 0
+\* RemBefore(res, total)[i] = elements still owed before call i
+RECURSIVE RemSeq(_,_,_,_)
+RemSeq(res, i, rem, acc) ==
+  IF i > Len(res) THEN acc ELSE RemSeq(res, i + 1, rem - Consumes(res[i], rem), Append(acc, rem))
 
 \* tags for one recorded call sequence
 ProtoFails(res, S, adapt, k, panicked) ==
-  LET ys == YieldIdx(res)
-      n  == Cardinality(S) IN
+  LET ys  == YieldIdx(res)
+      n   == Cardinality(S)
+      rb  == RemSeq(res, 1, ExpectedTotal(adapt, k, n), <<>>) IN
   (IF panicked \/ \E i \in 1..Len(res) : res[i].st = "started" THEN {"iter_panic"} ELSE {})
   \* no element twice (same key, or - for borrowing iterators - same address)
   \cup T(\A i, j \in ys : i # j => /\ res[i].y[1].k # res[j].y[1].k
@@ -43,28 +55,32 @@ ProtoFails(res, S, adapt, k, panicked) ==
                                    /\ (res[i].y[1].ap = 0 \/ res[i].y[1].ap # res[j].y[1].ap), "iter_dup")
   \* only stored elements, as stored
   \cup T(\A i \in ys : Proj4(res[i].y[1]) \in S, "iter_unknown")
-  \* None is final
-  \cup T(\A i \in 1..Len(res) : (IsYieldCall(res[i]) /\ res[i].y = <<>>) => \A j \in (i+1)..Len(res) : ~Yielded(res[j]),
-         "iter_after_none")
-  \* exhaustion yields exactly the expected number of elements
-  \cup (IF panicked \/ ~Exhausted(res) THEN {}
-        ELSE T(Cardinality(ys) = ExpectedTotal(adapt, k, n), "iter_missing")
-             \* declared exact size: len and size_hint are exactly the number still to come
-             \cup T(\A i \in 1..Len(res) : (res[i].c = 2 /\ res[i].st = "done") => res[i].len = Remaining(res, i), "iter_len")
-             \cup T(\A i \in 1..Len(res) : (res[i].c = 3 /\ res[i].st = "done") =>
-                      IF DeclaresExact(res)
-                      THEN res[i].lo = Remaining(res, i) /\ res[i].hi = <<Remaining(res, i)>>
-                      ELSE res[i].lo <= Remaining(res, i) /\ (res[i].hi = <<>> \/ Remaining(res, i) <= res[i].hi[1]),
-                    "iter_hint"))
+  \* a yielding call returns an element exactly when it is owed one:
+  \*   next / next_back / last: iff something is left;  nth(k) / nth_back(k): iff more than k are left
+  \cup T(\A i \in 1..Len(res) : Yielding(res[i]) =>
+           LET owed == IF res[i].c \in {4, 5} THEN rb[i] > res[i].k ELSE rb[i] > 0 IN
+           (res[i].y # <<>>) = owed, "iter_missing")
+  \* None is final for the single-step calls (FusedIterator)
+  \cup T(\A i \in 1..Len(res) : (res[i].c \in {0, 1} /\ res[i].st = "done" /\ res[i].y = <<>>)
+                                 => \A j \in (i+1)..Len(res) : ~Yielded(res[j]), "iter_after_none")
+  \* len, count and (where an exact size is declared) size_hint report exactly what is still owed
+  \cup T(\A i \in 1..Len(res) : (res[i].c \in {2, 7} /\ res[i].st = "done") => res[i].len = rb[i], "iter_len")
+  \cup T(\A i \in 1..Len(res) : (res[i].c = 3 /\ res[i].st = "done") =>
+           IF DeclaresExact(res)
+           THEN res[i].lo = rb[i] /\ res[i].hi = <<rb[i]>>
+           ELSE res[i].lo <= rb[i] /\ (res[i].hi = <<>> \/ rb[i] <= res[i].hi[1]), "iter_hint")
 
-\* sorted iterators: next yields an extreme of what remains (PriorityQueue: maximum;
-\* DoublePriorityQueue: next = minimum, next_back = maximum)
+\* sorted iterators: every step yields an extreme of what remains (PriorityQueue: maximum first;
+\* DoublePriorityQueue: front = minimum, back = maximum); last() yields the opposite extreme.  Only for
+\* sequences without nth / nth_back (whose skipped elements are not observed).
 RECURSIVE OrderWalk(_,_,_,_)
 OrderWalk(res, i, rem, kind) ==
   IF i > Len(res) THEN {} ELSE
+  IF \E j \in 1..Len(res) : res[j].c \in {4, 5} THEN {} ELSE
   IF ~Yielded(res[i]) \/ Proj4(res[i].y[1]) \notin rem THEN OrderWalk(res, i+1, rem, kind) ELSE
   LET y == Proj4(res[i].y[1])
-      isMax == kind = "pq" \/ res[i].c = 1 IN
-  T(IF isMax THEN \A x \in rem : x.r <= y.r ELSE \A x \in rem : x.r >= y.r, "iter_order")
-  \cup OrderWalk(res, i+1, rem \ {y}, kind)
+      fromMax == IF res[i].c = 6 THEN kind # "pq" ELSE (kind = "pq" \/ res[i].c = 1)
+      fromMaxL == IF res[i].c = 6 THEN ~(kind = "pq") ELSE fromMax IN
+  T(IF fromMaxL THEN \A x \in rem : x.r <= y.r ELSE \A x \in rem : x.r >= y.r, "iter_order")
+  \cup OrderWalk(res, i+1, IF res[i].c = 6 THEN {} ELSE rem \ {y}, kind)
 =============================================================================
